@@ -220,13 +220,16 @@ def oracle(line, out_full, expect):
         if not res.startswith("err:"): return "fewer than three messages but no error: " + out[:120]
     if expect is None: return None
     if expect[0] == "honest":
-        if res != "ok" or [w.hex() for w in writes] != expect[1]:
-            return "an honest server was refused, or the client's messages differ from the reference client's: " + out[:160]
+        # an honest server being refused, or client messages that differ from the python reference client's, are NOT
+        # violations of C01 (a safety property: credentials only after the proof; a refusal releases nothing).  Both still
+        # break the model/implementation correspondence (the model's honest run is proved equal to the reference client's
+        # three messages: C01_nonvacuous, C01_accepts_honest) and are reported as a broken tie.
+        return None
     elif expect[0] == "final":
         lab = expect[1]
         accept = lab in ("equal+zeros", "seq5", "k=1", "version6", "der-long-length-leading-zero")
         if lab == "flip-der" or lab == "garbage": return None            # judged by the general rule above only
-        if accept and n != 3: return "a reply numerically equal to key+1 under the right keys (%s) was refused: %s" % (lab, out[:100])
+        if accept: return None      # refusing a numerically equal proof releases nothing: not a C01 violation (tie diff still compares)
         if not accept and n != 2: return "alteration `%s`: expected an error after exactly two messages, got %s" % (lab, out[:100])
     elif expect[0] == "early":
         if n != expect[1] or not res.startswith("err:"): return "failure before the last round: expected err and %d message(s), got %s" % (expect[1], out[:100])
